@@ -23,6 +23,7 @@ def build(r, name, n_enabled, mask):
         v.split_attrs = r.choice([0, 1, 2])
         v.attr_order_seed = r.randint(0, 7)
     spec = EnumSpec(name=name, variants=vs, derives=["EnumTable"], std_derives=["Debug", "PartialEq", "Clone", "Copy"])
+    gen.add_noise(r, spec, skip=("message",))
     if r.random() < 0.5:
         # explicit discriminants in an order unrelated to the declaration order
         vals = r.sample(range(-40, 400), n)
